@@ -258,6 +258,8 @@ func runC13(c *Check) {
 	c.ruleSizeCoupledWithCounter("R10", a)
 	c.rulePendingForkGuardOnParent("R7")
 	c.ruleRequestOnlyIfUnknownEverywhere("R11")
+	c.ruleTruncationKeepsForkPoint("R13")
+	c.rulePopMovesLastSavedHash("R14")
 	c.ruleFilledRequestsGoOut("R12", "handlers.(*HeadersHandler).Handle", "spynode.(*Node).processBlocks")
 	c.ruleRemovedRangeIsCountedRange("R2", a.blocksRequested, a.pendingBlockSize)
 
